@@ -5,10 +5,11 @@
 //@ harness e_paths_slash kind=enum props=C16 bound=<<starting points d/, d//, d/., ./, d/./ x entries at depth 1, 2 below them>> label=<<%p, %P, %d and %f for starting points spelled with a trailing slash or a trailing /.>>
 //@ harness e_paths_slash_h kind=enum props=C16 bound=<<starting points d/, d//, d/., ./, d/./ x entries at depth 1, 2 below them>> label=<<%H is the starting point as given and %h the part before the last component, and %H, a separator and %P recompose %p, for starting points spelled with a trailing slash or a trailing /.>>
 //@ harness e_printf_roots kind=enum props=C16 bound=<<a real tree a/{f1, b/{f2}} with the starting points a and a/b in either order (one inside the other), or a/b and a sibling c x -type f / -mindepth 1 / -depth placed before -printf>> label=<<for every entry %H is the starting point of the walk that reached it and %P the path below that starting point, also when one starting point lies inside another and the same -printf serves both walks>>
-//@ harness e_padding kind=enum props=C16 bound=<<widths none, 0, 1, 3, 10, 64, 65, 100, 300, 65535, 65536, 70000 x both justifications x values of 1, 4 and 12 characters (%f) and a number (%d)>> label=<<a directive's value is padded with blanks to the minimum width, on the left by default and on the right with '-', and never truncated>>
+//@ harness e_padding kind=enum props=C16 bound=<<widths none, 0, 1, 3, 10, 64, 65, 100, 300, 65535, 65536, 70000 x both justifications x values of 1, 4 and 12 characters (%f), a number (%d) and the empty value (%l on a non-link)>> label=<<a directive's value is padded with blanks to the minimum width, on the left by default and on the right with '-', and never truncated>>
 //@ harness e_format_text kind=enum props=C16 bound=<<format strings of 0..=3 pieces over {a, e-acute, \n, \101, \0, \\, %%, %p, trailing text, \a, \b, \f, \r, \t, \v, \7, \12, the 3-byte euro sign}>> label=<<escapes and %% are replaced by their character, every other character is copied verbatim, nothing is appended>>
 //@ harness e_inode_below_root kind=enum props=C16,C13 bound=<<every entry directly below / (mount points included where the sandbox has them)>> label=<<%i is the inode number of the status record (lstat under -P), also for entries that are mount points, where the directory listing reports a different number>>
 //@ harness e_stat_directives kind=enum props=C16,C13 bound=<<a regular file (5 bytes, mode 0640), a directory (mode 2750), a symbolic link to the file, a dangling link x follow modes -P and -L>> label=<<%s %n %i %U %G in decimal and %m in octal (all twelve bits) come from the status record the follow mode selects; %y/%Y are the type letters of -type/-xtype; %l is the link target or nothing>>
+//@ harness e_actions_true kind=enum props=C01,C16 bound=<<-printf / -fprintf with formats %p, %s, x%sy, %m %p, %l, %i on an existing file and on an entry whose file has just vanished (every status directive fails)>> label=<<-printf and -fprintf are true whatever happens while formatting - also when a directive cannot be evaluated - so what follows them in an -a chain is still evaluated, and the text before the failing directive has been written>>
 #[cfg(verif_replay)]
 mod verif_enum_printf {
     use super::*;
@@ -98,11 +99,13 @@ mod verif_enum_printf {
         let w = widths[pick(widths.len())];
         let left = pick(2) == 1;
         let names = ["a", "abcd", "abcdefghijkl"];
-        let use_depth = pick(2) == 1;
+        // directive: %f (the name), %d (the depth) or %l on something that is not a link (the empty value)
+        let which = pick(3);
+        let use_depth = which == 1;
         let name = names[pick(3)];
         let entry = WalkEntry::new(PathBuf::from("d").join(name), 1, Follow::Never);
-        let value = if use_depth { "1".to_string() } else { name.to_string() };
-        let fmt = format!("[%{}{}{}]", if left { "-" } else { "" }, w.map(|w| w.to_string()).unwrap_or_default(), if use_depth { "d" } else { "f" });
+        let value = if which == 2 { String::new() } else if use_depth { "1".to_string() } else { name.to_string() };
+        let fmt = format!("[%{}{}{}]", if left { "-" } else { "" }, w.map(|w| w.to_string()).unwrap_or_default(), ["f", "d", "l"][which]);
         if left && w.is_none() { return; } // '%-f' without a width: not in the statement
         let pad = " ".repeat(w.unwrap_or(0).saturating_sub(value.chars().count()));
         let want = if left { format!("[{value}{pad}]") } else { format!("[{pad}{value}]") };
@@ -186,4 +189,34 @@ mod verif_enum_printf {
         assert!(got_l == want_l, "%l");
     }
     #[test] fn e_stat_directives() { kani::explore(stat_body) }
+
+    fn actions_true_body() {
+        use crate::find::tests::FakeDependencies;
+        let fmt = ["%p", "%s", "x%sy", "%m %p", "%l", "%i"][pick(6)];
+        let vanish = pick(2) == 1;
+        let to_file = pick(2) == 1;
+        let d = std::env::temp_dir().join(format!("verif-enum-acttrue-{}", std::process::id()));
+        let _ = std::fs::remove_dir_all(&d);
+        std::fs::create_dir_all(d.join("t")).unwrap();
+        std::fs::write(d.join("t/f"), "12345").unwrap();
+        let ds = d.to_str().unwrap().to_string();
+        let root = format!("{ds}/t");
+        let log = format!("{ds}/log");
+        let full = format!("<{fmt}>");
+        // -delete makes the file vanish before the format is evaluated: every status directive then fails
+        let mut args: Vec<&str> = vec!["find", &root, "-type", "f"];
+        if vanish { args.push("-delete"); }
+        if to_file { args.extend_from_slice(&["-fprintf", &log, &full]); } else { args.extend_from_slice(&["-printf", &full]); }
+        args.extend_from_slice(&["-printf", "|after\\n"]);
+        let deps = FakeDependencies::new();
+        let _rc = crate::find::find_main(&args, &deps);
+        let mut got = String::from_utf8_lossy(deps.output.borrow().get_ref()).into_owned();
+        if to_file { got = format!("{}{}", std::fs::read_to_string(&log).unwrap_or_default(), got); }
+        let _ = std::fs::remove_dir_all(&d);
+        // whatever the first action wrote, it was true: the second one ran, once
+        let ok = got.ends_with("|after\n") && got.matches("|after\n").count() == 1 && got.starts_with('<');
+        if !ok { eprintln!("  input find T -type f{} {} {full:?} -printf '|after\\n': output {:?}", if vanish { " -delete" } else { "" }, if to_file { "-fprintf LOG" } else { "-printf" }, got.replace(&ds, "D")); }
+        assert!(ok, "-printf / -fprintf must be true: the action after it was not evaluated exactly once");
+    }
+    #[test] fn e_actions_true() { kani::explore(actions_true_body) }
 }
